@@ -9,7 +9,7 @@ from sx import vloop
 
 PROPERTY = "C17"
 BOUNDS = {
-    "quick": "byte streams over the alphabet {0a,0d,3b,41,80,c3,a9,ff} of length <= 3, arriving in 1 or 2 chunks (cut point symbolic), with or without EOF, through the real asyncio.StreamReader on a real event loop (reader task and feeder task interleave); over-long lines with the reader limit lowered to 2; writes: 1..2 lines from a 6-text class list (ASCII, ';', non-ASCII, astral) with symbolic fault bits on write/drain; connect fault; close fault; use before connect; TCPTransport and SerialTransport factories",
+    "quick": "byte streams over the alphabet {0a,0d,3b,41,80,c3,a9,ff} of length <= 3, arriving in 1 or 2 chunks (cut point symbolic), with or without EOF, through the real asyncio.StreamReader on a real event loop (reader task and feeder task interleave); 8 special streams (UTF-8 / UTF-16 byte-order marks, NUL, multi-byte characters); over-long lines with the reader limit lowered to 2; writes: 1..2 lines from a 6-text class list (ASCII, ';', non-ASCII, astral) with symbolic fault bits on write/drain; connect fault; close fault; use before connect; TCPTransport and SerialTransport factories",
     "thorough": "length <= 4 in 1..2 chunks, length <= 3 in up to 3 chunks; 1..3 writes from 3 texts",
 }
 REALISED = ["bytes, cut points and texts are forked into concrete values (CrossHair cannot keep bytes symbolic through bytearray / decode): the solver enumerates the stated grid"]
@@ -18,6 +18,8 @@ ASSUMPTIONS = ["a real reader raises only LimitOverrunError, IncompleteReadError
 MUST_REACH = ["lines-ok", "overrun-ok", "writes-ok", "write-fault-ok", "connect-fault-ok", "not-connected-ok"]
 
 ALPHABET = [0x0A, 0x0D, 0x3B, 0x41, 0x80, 0xC3, 0xA9, 0xFF]
+SPECIAL_STREAMS = [b"\xef\xbb\xbfA\n", b"\xef\xbb\xbf\n", b"A\xef\xbb\xbf\n\xef\xbb\xbfB\n", b"\xfe\xff\n", b"\xff\xfeA\x00\n", b"\x00\n",
+                   b"\xc3\xa9\n\xef\xbb\xbf", b"1;1;1;0;47;\xe6\x97\xa5\xe6\x9c\xac\n" * 3]
 TEXTS = ["0;0;1;0;0;\n", "1;255;3;0;11;a;b\n", "1;1;1;0;47;é\n", "2;2;1;0;47;日本\n", "3;3;1;0;47;\U0001f600\n", "\n"]
 
 
@@ -32,6 +34,7 @@ def partitions(tier):
             parts.append({"name": "read3chunks-first%02x" % ALPHABET[first], "fn": "sym_read", "first": first, "maxlen": 3, "chunks": 3,
                           "budget": 3000, "cost": 12})
     parts.append({"name": "read-empty", "fn": "sym_read", "first": None, "maxlen": 0, "chunks": 1, "budget": 100, "cost": 1})
+    parts.append({"name": "read-special", "fn": "sym_read", "first": "special", "maxlen": 0, "chunks": 2, "budget": 300, "cost": 2})
     parts.append({"name": "overrun", "fn": "sym_overrun", "maxlen": L + 1, "budget": 600 if q else 3000, "cost": 5})
     for kind in ("tcp", "serial"):
         for nw in range(1, (2 if q else 3) + 1):
@@ -87,6 +90,8 @@ def sym_read(inp, part):
 
     if part["first"] is None:
         data = b""
+    elif part["first"] == "special":
+        data = SPECIAL_STREAMS[inp.pick("stream", len(SPECIAL_STREAMS))]
     else:
         k = 1 + inp.pick("len", part["maxlen"])
         data = bytes([ALPHABET[part["first"]]] + [ALPHABET[inp.pick("b%d" % i, len(ALPHABET))] for i in range(1, k)])
@@ -98,7 +103,7 @@ def sym_read(inp, part):
         chunks.append(data[prev:c])
         prev = c
     exp = _expected(data, eof)
-    kind = "tcp" if (part["first"] or 0) % 2 == 0 else "serial"
+    kind = "tcp" if (part["first"] if isinstance(part["first"], int) else 0) % 2 == 0 else "serial"
     got = []
 
     async def main():
@@ -245,7 +250,7 @@ def sym_write(inp, part):
             try:
                 await tr.write(t)
                 outcomes.append("ok")
-            except TransportFailedError:
+            except TransportError:
                 outcomes.append("failed")
                 if wf[i]:
                     writer.i += 1
